@@ -42,7 +42,11 @@ func Setup() {
 			panic(err)
 		}
 		os.Setenv("DTAIL_HOSTNAME_OVERRIDE", "host0")
-		args := config.Args{ConfigFile: "none", Logger: "none", LogLevel: "error", LogDir: dir, SSHPort: config.DefaultSSHPort, ConnectionsPerCPU: 10}
+		logger := "none"
+		if l := os.Getenv("VERIF_NATIVE_LOGGER"); l != "" {
+			logger = l
+		}
+		args := config.Args{ConfigFile: "none", Logger: logger, LogLevel: "error", LogDir: dir, SSHPort: config.DefaultSSHPort, ConnectionsPerCPU: 10}
 		config.Setup(source.Server, &args, nil)
 		config.Server.HostKeyFile = dir + "/cache/ssh_host_key"
 		config.Server.HostKeyBits = 2048
